@@ -336,12 +336,27 @@ func (n *WorkflowNode) addDependencyRelation(fromNodeKey string, inputs []*Field
 }
 
 func (n *WorkflowNode) checkAndAddMappedPath(paths []FieldPath) error {
+	// a mapping without target path (also one that only selects a source field) maps onto the entire input
+	entire := len(paths) == 0
+	for _, targetPath := range paths {
+		if len(targetPath) == 0 {
+			entire = true
+		}
+	}
+
 	if v, ok := n.mappedFieldPath[""]; ok {
 		if _, ok = v.(struct{}); ok {
 			return fmt.Errorf("entire output has already been mapped for node: %s", n.key)
 		}
+		if entire {
+			// the empty path is a prefix of every path: it conflicts with the fields mapped so far, whatever the order
+			return fmt.Errorf("fields have already been mapped for node %s: its entire input cannot be mapped as well", n.key)
+		}
 	} else {
-		if len(paths) == 0 {
+		if entire {
+			if len(paths) > 1 {
+				return fmt.Errorf("the entire input of node %s is mapped together with other mappings", n.key)
+			}
 			n.mappedFieldPath[""] = struct{}{}
 			return nil
 		} else {
